@@ -119,14 +119,39 @@ def make_scenario(rng: common.Rng, family: str, size: int) -> dict[str, Any]:
     sc["maximize"] = "max" in toks
     sc["db_objective"] = "-f" if sc["maximize"] else "f"
     with_obs = "obs" in toks
-    n_in = 3 if mdf else 2
+    n_in = 3 if (mdf or "idf" in toks) and "coupled" not in toks else 2
     gpoly: Any = _poly(rng, n_in, quad=False)
     if "vec" in toks:
         gpoly = [gpoly, _poly(rng, n_in, quad=False)]
     fpoly = _poly(rng, n_in)
     if sc["maximize"]:
         fpoly["q"] = [-q for q in fpoly["q"]]
-    if mdf:
+    if "idf" in toks:
+        # IDF: y is a design variable too; each function executes its own discipline only, so two
+        # functions of one point are separated by a discipline execution even with the caches on
+        sc["formulation"] = "IDF"
+        variables.append({"name": "y", "lb": [-64.0], "ub": [64.0], "x0": [float(rng.dyadic(-1, 1, 1))]})
+        d0 = {"name": "D0", "inputs": inputs, "outputs": {"y": _poly(rng, 2, quad=False)}}
+        ins2 = [*inputs, ["y", 1]]
+        discs = [d0, {"name": "Df", "inputs": ins2, "outputs": {"f": fpoly}},
+                 {"name": "Dg", "inputs": ins2, "outputs": {"g": gpoly}}]
+        sc["implicit_constraints"] = [["y", "eq"]]
+    elif "coupled" in toks:
+        # strongly coupled pair under MDF: the MDA executes D1 and D2 several times per evaluation
+        # (many crash points per request); recomputed values depend on the MDA's warm start, so the
+        # `same history` clause is not claimed for this family
+        b1, b2 = rng.pick([0.125, -0.125, 0.0625]), rng.pick([0.125, -0.25, 0.0625])
+        p1, p2 = _poly(rng, 2, quad=False), _poly(rng, 2, quad=False)
+        p1 = {"c": p1["c"], "a": [*p1["a"], b1], "q": [0.0, 0.0, 0.0]}
+        p2 = {"c": p2["c"], "a": [*p2["a"], b2], "q": [0.0, 0.0, 0.0]}
+        ins3 = [*inputs, ["y1", 1], ["y2", 1]]
+        fp, gp = _poly(rng, 4), _poly(rng, 4, quad=False)
+        discs = [{"name": "D1", "inputs": [*inputs, ["y2", 1]], "outputs": {"y1": p1}},
+                 {"name": "D2", "inputs": [*inputs, ["y1", 1]], "outputs": {"y2": p2}},
+                 {"name": "Df", "inputs": ins3, "outputs": {"f": fp}},
+                 {"name": "Dg", "inputs": ins3, "outputs": {"g": gp}}]
+        sc["iterative"] = True
+    elif mdf:
         d0 = {"name": "D0", "inputs": inputs, "outputs": {"y": _poly(rng, 2, quad=False)}}
         ins2 = [*inputs, ["y", 1]]
         discs = [d0, {"name": "Df", "inputs": ins2, "outputs": {"f": fpoly}},
@@ -144,8 +169,9 @@ def make_scenario(rng: common.Rng, family: str, size: int) -> dict[str, Any]:
     sc["disciplines"] = discs
     if doe:
         pts: list[list[float]] = []
+        dim = sum(len(v["lb"]) for v in variables)
         while len(pts) < size:
-            p = [float(rng.dyadic(-3, 3, 2)), float(rng.dyadic(-3, 3, 2))]
+            p = [float(rng.dyadic(-3, 3, 2)) for _ in range(dim)]
             if p not in pts:
                 pts.append(p)
         if size >= 3 and rng.chance(0.7):
@@ -153,12 +179,12 @@ def make_scenario(rng: common.Rng, family: str, size: int) -> dict[str, Any]:
             pts.insert(rng.randint(2, len(pts)), pts[rng.randint(0, 1)])
         sc["algo"] = {"algo_name": "CustomDOE", "samples": pts}
         sc["normalized"] = False
-        sc["deterministic"] = True
+        sc["deterministic"] = not sc.get("iterative")
     else:
         normalized = "norm" in toks
         sc["algo"] = {"algo_name": "SLSQP", "max_iter": size, "normalize_design_space": normalized}
         sc["normalized"] = normalized
-        sc["deterministic"] = not normalized
+        sc["deterministic"] = not normalized and not sc.get("iterative")
     return sc
 
 
@@ -174,8 +200,10 @@ def earlier_algo(sc: dict[str, Any], rng: common.Rng) -> dict[str, Any]:
 
 FAMILIES_QUICK = ["doe", "doe-nocache-obs", "doe-mdf-vec", "doe-max-obs", "mdo-unnorm", "mdo-norm",
                   "mdo-unnorm-nocache", "mdo-unnorm-obs"]
-FAMILIES_THOROUGH = [*FAMILIES_QUICK, "doe-obs-eq", "doe-big", "mdo-mdf-unnorm-vec", "doe-mdf-nocache",
-                     "mdo-norm-nocache-obs", "mdo-unnorm-max-eq", "mdo-unnorm-nocache-obs"]
+FAMILIES_EXTRA = ["doe-obs-eq", "doe-big", "mdo-mdf-unnorm-vec", "doe-mdf-nocache", "mdo-norm-nocache-obs",
+                  "mdo-unnorm-max-eq", "mdo-unnorm-nocache-obs", "mdo-idf-unnorm", "doe-idf-obs", "doe-mdf-coupled",
+                  "mdo-mdf-coupled-unnorm"]
+FAMILIES_THOROUGH = [*FAMILIES_QUICK, *FAMILIES_EXTRA]
 MODES = {"call": (True, False), "iter": (False, True), "both": (True, True)}
 
 
@@ -183,7 +211,7 @@ def family_size(rng, fam: str) -> int:
     toks = fam.split("-")
     if "big" in toks:
         return 12
-    if "nocache" in toks:
+    if "nocache" in toks or "coupled" in toks:
         return rng.randint(3, 4)
     return rng.randint(4, 6)
 
@@ -199,7 +227,8 @@ def make_cfg(sc, mode: str, pre: str, rng, crash_in="run", chain=0) -> dict[str,
 
 def gen_configs(rng: common.Rng, thorough: bool) -> list[dict[str, Any]]:
     cfgs = []
-    fams = FAMILIES_THOROUGH if thorough else FAMILIES_QUICK
+    # quick: the base families + two of the others, chosen by the seed
+    fams = FAMILIES_THOROUGH if thorough else [*FAMILIES_QUICK, *rng.sample(FAMILIES_EXTRA, 2)]
     for i, fam in enumerate(fams):
         sc = make_scenario(rng, fam, family_size(rng, fam))
         mdo = fam.startswith("mdo")
@@ -426,6 +455,10 @@ def crash_kind(cfg) -> str:
     return "jac" if cfg.get("crash_in") == "jac" else "call"
 
 
+def all_constraints(sc) -> list[list[str]]:
+    return [*sc.get("implicit_constraints", []), *sc.get("constraints", [])]
+
+
 def design_names(sc) -> list[str]:
     return [v["name"] for v in sc["variables"]]
 
@@ -571,7 +604,7 @@ def feasible_best(db, sc) -> Fraction | None:
         if obj not in outs:
             continue
         ok = True
-        for name, ty in sc.get("constraints", []):
+        for name, ty in all_constraints(sc):
             if name not in outs:
                 ok = False
                 break
@@ -629,14 +662,17 @@ def check_crash(res: Result, cfg, label: str, rp: dict, ref: dict, k: int, d: di
     item["r_loaded"] = canon(R["out"]["pre"]["loaded"])
     # no rework: executions at a stored point are bounded by the outputs still missing there
     execs: dict[tuple, int] = {}
+    dn = design_names(sc)
     for e in R["events"]:
-        if e["ev"] == "call":
+        if e["ev"] == "call" and all(n in e["in"] for n in dn):
             key = (e["d"], call_point(sc, e))
             execs[key] = execs.get(key, 0) + 1
     for (dname, p), n in execs.items():
         if p in backup:
             missing = set(r_final.get(p, {})) - set(backup[p])
-            if not n <= len(missing):
+            # an MDA executes its disciplines several times per evaluation
+            bound = len(missing) * (1000 if sc.get("iterative") else 1)
+            if not n <= bound:
                 res.violate("oracle", "rework",
                             f"{label}: discipline {dname} executed {n} time(s) at the stored point {fl(p)} "
                             f"although only {sorted(missing)} were missing there", rp)
@@ -724,7 +760,7 @@ def budget_of(algo) -> int:
 
 
 def opt_line(sc) -> str:
-    cs = ",".join(f"{n}:{t}" for n, t in sc.get("constraints", [])) or "-"
+    cs = ",".join(f"{n}:{t}" for n, t in all_constraints(sc)) or "-"
     return f"opt {sc.get('db_objective', sc['objective'])} {cs} {common.rat(TOL_EQ)} {common.rat(TOL_INEQ)}"
 
 
